@@ -113,9 +113,13 @@ def run(ctx):
 
 def selftest(ctx):
     t = os.path.join(ctx.work, "t.ndjson")
-    ctx.vh(["scope", "run", "--out", t, "--limit", "40"])
+    ctx.vh(["scope", "run", "--out", t, "--limit", "60"])
+    # keep the statements the resolver accepts (some of the first 60 are known findings), then break one reference
+    n_ok, rejected = validate_histories(ctx, AREA, "SqlScope", t, chunk_events=100000, max_cand=30, parallel=1)
+    bad = {hid for hid, _, _, _ in rejected}
+    lines = [ln for ln in open(t).read().splitlines() if json.loads(ln)["hid"] not in bad]
+    open(t, "w").write("\n".join(lines) + "\n")
     ok, _, _ = ctx.validate_trace(AREA, "SqlScope", t)
-    lines = open(t).read().splitlines()
     i = next(i for i, ln in enumerate(lines) if '"e":"ref"' in ln and '"s0"' in ln)
     e = json.loads(lines[i]); e["parts"][0] = "s9"; lines[i] = json.dumps(e)
     open(t, "w").write("\n".join(lines) + "\n")
